@@ -5,6 +5,13 @@ UmGen/RespCfg.lean:
     `parse_bulk_str` checks that the payload is followed by CRLF (the F7 fix,
     /verif/.build/patches/f7.diff).  Unpatched tree: both checks absent ⇒ `false`.
     A half-applied fix (one check without the other) is refused: the model has a single switch.
+  * `maxNesting : Option Nat` — the nesting limit of arrays (F16b fix): `some MAX_NESTING` when
+    the type-byte arms live in `parse_resp_nested(buf, depth)`, its `*` arm answers
+    `InvalidProtocol` for `depth >= MAX_NESTING` *before* reading the header and otherwise calls
+    `parse_array_nested(next_buf, depth + 1)`, whose loop calls `parse_resp_nested(next_buf, depth)`;
+    `none` for the unbounded recursion `parse_resp` <-> `parse_array`.
+  * `capRemaining : Bool` — `parse_array*` reserves `min(array_size, buf.len() - consumed)` elements
+    (F4 fix) instead of `array_size`.
   * the five type bytes of `parse_resp` and of `encode_resp` (must agree), the two nil
     encodings and the line terminator written by the encoder.
 The values are also exercised differentially on every run (wrong detection ⇒ disagreement).
@@ -42,14 +49,49 @@ def gen_respcfg():
     out.append(f"/-- `parse_line` rejects a line whose LF is not preceded by CR and `parse_bulk_str` rejects a\n"
                f"payload not followed by CRLF (F7 fix applied) — detected in {p} -/")
     out.append(f"def strictTerm : Bool := {'true' if line_chk else 'false'}")
+    # --- nesting limit (F16b) / capped reservation (F4) -----------------------------------
+    nested = re.search(r"\bfn\s+parse_resp_nested\b", t) is not None
+    if nested:
+        wrapper = fn_body(t, "parse_resp", p)
+        if re.sub(r"\s+", "", wrapper) != "parse_resp_nested(buf,0)":
+            raise ExtractError(f"{p}: parse_resp is not the wrapper parse_resp_nested(buf, 0)")
+        body = fn_body(t, "parse_resp_nested", p)
+        arr_fn = fn_body(t, "parse_array_nested", p)
+        m = re.search(r"b'\*'\s*=>\s*\{\s*if depth >= MAX_NESTING \{\s*return Err\(ParseError::InvalidProtocol\);\s*\}\s*"
+                      r"let \(mut v, consumed\) = parse_array_nested\(next_buf, depth \+ 1\)\?;", body)
+        if not m or "parse_resp_nested(next_buf, depth)?" not in arr_fn or body.count("depth") != 2 \
+                or arr_fn.count("depth") != 1:
+            raise ExtractError(f"{p}: nesting limit has an unknown shape")
+        max_nesting = f"some {const_num(t, 'MAX_NESTING', p)}"
+    else:
+        body = fn_body(t, "parse_resp", p)
+        arr_fn = fn_body(t, "parse_array", p)
+        if "depth" in body or "depth" in arr_fn or "MAX_NESTING" in t:
+            raise ExtractError(f"{p}: nesting limit has an unknown shape")
+        if "parse_array(next_buf)?" not in body or "parse_resp(next_buf)?" not in arr_fn:
+            raise ExtractError(f"{p}: parse_resp/parse_array recursion not recognised")
+        max_nesting = "none"
+    caps = re.findall(r"Vec::with_capacity\(([^;]*)\);", arr_fn)
+    if caps == ["array_size"]:
+        cap_remaining = False
+    elif caps == ["std::cmp::min(array_size, remaining)"] and \
+            re.search(r"let remaining = buf\.len\(\)\.saturating_sub\(consumed\);", arr_fn):
+        cap_remaining = True
+    else:
+        raise ExtractError(f"{p}: Vec::with_capacity of parse_array has an unknown shape: {caps}")
+    if "for _ in 0..array_size" not in arr_fn or "buf.get(consumed..).ok_or(ParseError::InvalidProtocol)?" not in arr_fn:
+        raise ExtractError(f"{p}: element loop of parse_array not recognised")
+    out.append(f"/-- nesting limit of arrays (`MAX_NESTING`), `none` = unbounded recursion — {p} -/")
+    out.append(f"def maxNesting : Option Nat := {max_nesting}")
+    out.append(f"/-- `parse_array` reserves `min(array_size, bytes remaining)` elements — {p} -/")
+    out.append(f"def capRemaining : Bool := {'true' if cap_remaining else 'false'}")
     # --- type bytes: parser ------------------------------------------------------------
-    body = fn_body(t, "parse_resp", p)
     arms = re.findall(r"(b'(?:\\.|[^\\])')\s*=>\s*\{.*?RespIndex::(\w+)\(v\)", body, flags=re.S)
     parser = {kind: _byte_lit(lit, "parse_resp arm") for lit, kind in arms}
     if sorted(parser) != ["Arr", "Bulk", "Error", "Integer", "Simple"]:
         raise ExtractError(f"{p}: parse_resp arms not recognised: {parser}")
-    if "parse_line" not in body or body.count("parse_line(next_buf)") != 3:
-        raise ExtractError(f"{p}: parse_resp: expected three parse_line arms")
+    if "parse_line" not in body or body.count("parse_line(next_buf)") != 3 or body.count("parse_bulk_str(next_buf)") != 1:
+        raise ExtractError(f"{p}: parse_resp: expected three parse_line arms and one parse_bulk_str arm")
     # --- type bytes: encoder -----------------------------------------------------------
     pe = "src/protocol/encoder.rs"
     te = src(pe)
